@@ -88,9 +88,9 @@ def boundary(t, f, callee_f, level, nlevel):
     if nlevel == level + 1 and (t.get('callee') or '').endswith('Stream::poll_next') and 'requests_per_channel' in f.id:
         return ('I', 'poll_next')
     # the limiter's own reply: its call to a Sink::start_send impl from its stream body
-    if (t.get('callee') or '').endswith('Sink::start_send') and 'requests_per_channel' in f.id and nlevel == level \
+    if (t.get('callee') or '').endswith('Sink::start_send') and 'requests_per_channel' in f.id and nlevel in (level, level + 1) \
             and not (f.impl_of and (f.impl_of.get('trait') or '').split('<')[0].endswith('Sink')):
-        return ('S', 'start_send')
+        return ('S', 'start_send')    # through its own Sink impl, or directly on the channel it wraps
     return None
 
 
@@ -103,7 +103,7 @@ def run(ctx):
     mr = F.trait_method('Stream', 'requests_per_channel::MaxRequests', 'poll_next')
     lim_field = F.field_of_type('requests_per_channel::MaxRequests', lambda t: t == 'usize')
     is_cnt = lambda x: bool(P.root(x)) and all(P.is_call(r, 'Channel::in_flight_requests') for r, _ in P.root(x))
-    is_lim = lambda x: bool(P.root(x)) and all(r[0] == 'param' and P.fpath(p)[-1:] == (lim_field,) for r, p in P.root(x))
+    is_lim = lambda x: bool(P.root(x, through_params=True)) and all(r[0] == 'param' and P.fpath(p)[-1:] == (lim_field,) for r, p in P.root(x, through_params=True))   # also when handed to a predicate helper
     cmps = cmp_sites_for(F, P, reachable_local_fns(F, mr, depth=2), is_cnt, is_lim, 'limit')
     cmps = {k: v + '|limitH' + v[-1] for k, v in cmps.items()}
     R.ob('C12.guard', ('MaxRequests::poll_next', 'limit comparison'), len(cmps) == 1 and list(cmps.values())[0].split('|')[0] in ('limit+', 'limit-'),
